@@ -228,6 +228,9 @@ func (t *Ticket) GetPACType(keytab *keytab.Keytab, sname *types.PrincipalName, l
 				l.Printf("PAC authorization data could not be unmarshaled: %v", err)
 				continue
 			}
+			if len(ad2) < 1 {
+				continue
+			}
 			if ad2[0].ADType == adtype.ADWin2KPAC {
 				isPAC = true
 				var p pac.PACType
